@@ -129,14 +129,31 @@ impl Decoder for ClientAEADCodec {
     }
 }
 
+/// VMess carries its body under AES-128-GCM or ChaCha20-Poly1305. A cipher name that belongs to Shadowsocks only is
+/// refused instead of being read as AES-128-GCM; a configuration that names no cipher keeps that default.
+pub(super) fn check_cipher(kind: octo_squirrel::codec::aead::CipherKind) -> Result<()> {
+    use octo_squirrel::codec::aead::CipherKind;
+    match kind {
+        CipherKind::Aes128Gcm | CipherKind::ChaCha20Poly1305 | CipherKind::Unknown => Ok(()),
+        other => bail!("cipher {other} is not a vmess cipher (aes-128-gcm, chacha20-poly1305)"),
+    }
+}
+
 pub(super) mod tcp {
     use octo_squirrel::codec::aead::CipherKind;
+    use octo_squirrel::config::ServerConfig;
     use octo_squirrel::protocol::address::Address;
     use octo_squirrel::protocol::vmess::header::RequestCommand;
     use octo_squirrel::protocol::vmess::header::RequestHeader;
     use octo_squirrel::protocol::vmess::header::SecurityType;
 
     use super::ClientAEADCodec;
+    use crate::client::config::SslConfig;
+
+    pub fn new_context(config: &ServerConfig<SslConfig>) -> anyhow::Result<(CipherKind, String)> {
+        super::check_cipher(config.cipher)?;
+        Ok((config.cipher, config.password.clone()))
+    }
 
     pub fn new_codec(addr: &Address, (kind, password): (CipherKind, String)) -> anyhow::Result<ClientAEADCodec> {
         let security = if kind == CipherKind::ChaCha20Poly1305 { SecurityType::Chacha20Poly1305 } else { SecurityType::Aes128Gcm };
